@@ -77,3 +77,15 @@ try:
     print("generated", "C06Index.v")
 except Exception as e:  # ./check C06 reports the broken tie itself; do not stop the other translators
     print("C06Index.v: translator failed (%s: %s); file left as it was" % (type(e).__name__, e))
+# C01/C02/C04/C14: compute.py + torch.py (STFT integer bookkeeping) -> StftK.v
+import stft as gen_stft  # noqa: E402
+gen_stft.main(C.SRC, os.path.join(C.COQ, "gen", "StftK.v"))
+print("generated", "StftK.v")
+# C05: filters.py (range tests, vertices / edges, Gabor sigma, gammatone alpha / c, supports, per-bin values)
+# + util.py (Hz<->rad) + config.py (support threshold) -> Banks.v
+import banks as banks_c05  # noqa: E402
+try:
+    banks_c05.main(C.SRC, os.path.join(C.COQ, "gen", "Banks.v"))
+    print("generated", "Banks.v")
+except Exception as e:  # ./check C05 reports the broken tie itself; do not stop the other translators
+    print("Banks.v: translator failed (%s: %s); file left as it was" % (type(e).__name__, e))
